@@ -250,7 +250,8 @@ type Env struct {
 	queued    int  // messages put on the consensus queue while nobody drains it (syncing)
 }
 
-const gossipSleep = time.Millisecond
+// GossipSleep: the sleep of the per-peer consensus gossip routines of the next environment's nodes.
+var GossipSleep = time.Millisecond
 
 // PexSeedMode: the next environment runs its PEX reactor in seed mode (answers one request per inbound peer and hangs up).
 var PexSeedMode bool
@@ -281,6 +282,7 @@ func NewEnv(mode string, height uint64) (*Env, error) {
 	}()
 	e := &Env{Mode: mode, AdvIdx: 3, byCh: map[byte]p2p.Reactor{}, nameByCh: map[byte]string{}, capByCh: map[byte]int{}}
 	e.Dir = scratchDir()
+	gossipSleep := GossipSleep
 	nodeOpts := func(i int) netsim.NodeOpts {
 		o := netsim.NodeOpts{Config: func(c *configs.ConsensusConfig) {
 			c.PeerGossipSleepDuration = gossipSleep
